@@ -97,6 +97,18 @@ def run(ctx):
     rreq = []
     for k in range(20 if quick else 600):
         rreq.append([rng.uniform(0, 50), rng.uniform(0, 3), rng.uniform(0.2, 5), rng.choice([0.001, 0.002, 0.01, 0.05]), rng.uniform(-1, 1), rng.uniform(-3, 3)])
+    ireq = [(mo, r, integ) for mo in models for r in range(2 if quick else 5) for integ in (2, 3)]
+    # custom models (driver c05_custom): multi-input PID actuators in front of limited ones (actuator index != control index),
+    # tendons across sibling branches / along a chain, asymmetric and one-sided force / control ranges, standalone free body
+    ireq += [((rng.randrange(1, 10 ** 6), 0xFFFFFFFF, 0), r, integ) for k in range(5 if quick else 60) for r in range(2) for integ in (2, 3)]
+    vreq = []
+    for k in range(60 if quick else 1500):
+        flo = -rng.uniform(0.05, 2) if rng.random() < 0.7 else 0.0
+        fhi = rng.uniform(0.05, 2) if (rng.random() < 0.7 or flo == 0.0) else 0.0
+        clo, chi = -rng.uniform(0.1, 0.8), rng.uniform(0.5, 1.5)
+        vreq.append((rng.randrange(2), rng.randrange(2), clo, chi, rng.randrange(2),
+                     [flo, fhi, rng.uniform(-2, 2), rng.uniform(-1, 1), rng.uniform(-1.5, 1.5), rng.uniform(-1, 1), rng.uniform(-2, 0), -rng.uniform(0, 3),
+                      rng.uniform(-1, 1), rng.uniform(-3, 3), rng.uniform(-2.5, 2.5)]))
     inp = []
     for a in qreq:
         inp.append("Q " + " ".join("%x" % bits(x) for x in a))
@@ -108,13 +120,24 @@ def run(ctx):
         inp.append("E %d %d %d %d" % (mo[0], mo[1], mo[2], r))
     for (mo, integ, ns, nodamp) in sreq:
         inp.append("S %d %d %d %d %d %d" % (mo[0], mo[1], mo[2], integ, ns, nodamp))
+    for (mo, r, integ) in ireq:
+        inp.append("I %d %d %d %d %d" % (mo[0], mo[1], mo[2], r, integ))
+    for (pre_, cl, clo, chi, fl, a) in vreq:
+        inp.append("V %d %d %x %x %d %s" % (pre_, cl, bits(clo), bits(chi), fl, " ".join("%x" % bits(x) for x in a)))
     for a in rreq:
         inp.append("R " + " ".join("%x" % bits(x) for x in a) + " 1")
+    import time as _t
+    _t0 = _t.time()
     rc, out, err = ctx.run(exe, "\n".join(inp) + "\n", timeout=900)
+    ctx.cov["support"]["driver_wall_s"] = round(_t.time() - _t0, 1)
+    ctx.cov["support"]["coq_props_wall_s"] = round(_t0 - ctx.t0, 1)
     lines = out.split("\n")
     if rc != 0 or len(lines) < len(inp):
         ctx.broken.append(("correspondence", "driver c05_integ failed", "rc=%s lines=%d/%d %s" % (rc, len(lines), len(inp), err[-800:])))
         return
+    from concurrent.futures import ThreadPoolExecutor
+    _pool = ThreadPoolExecutor(max_workers=2)
+    _pending = []
     pos = 0
     pre = ("From Coq Require Import ZArith List Bool PrimFloat QArith.\nImport ListNotations.\nFrom MJV Require Import Lib.Num Lib.NumF Model.Integrate Gen.RK4Tableau.\n"
            "Definition fl4 (q : float*float*float*float) := let '(a,b,c,d) := q in [a;b;c;d].\n"
@@ -134,12 +157,12 @@ def run(ctx):
         cases.append("((%s,%s,%s,%s), (%s,%s,%s), %s, %s)" % (tuple(F.fhex(x) for x in a) + (F.flist(o),)))
         if any(a[4:7]) and a[7] != 0:
             nontriv += 1
-    fails = ctx.coq_eval("c05_quat", pre, cases, "fun c => match c with (q, v, s, o) => fclose_list tol (fl4 (quatIntegrate (T:=float) q v s)) o end",
+    _fut = _pool.submit(ctx.coq_eval, "c05_quat", pre, cases, "fun c => match c with (q, v, s, o) => fclose_list tol (fl4 (quatIntegrate (T:=float) q v s)) o end",
                          pre="Open Scope float_scope.")
-    for i in fails[:3]:
+    def _rep(i, cases=cases, kept=(kept if 'kept' in dir() else None)):
         ctx.violation("correspondence", {"op": "mju_quatIntegrate", "args_bits": ["%016x" % bits(x) for x in qreq[i]]}, expected="Model/Integrate.v quatIntegrate",
                       observed=cases[i][-200:], found_input=False, theorem="correspondence mju_quatIntegrate")
-    ncorr += len(fails)
+    _pending.append((_fut, _rep))
     # ------------------------------------------------------------------ P
     cases = []
     kept = []
@@ -169,11 +192,11 @@ def run(ctx):
         kept.append(case)
     chk = ("fun c => match c with (ts, qp, qv, dt, o, dv) => let js := js_of ts in "
            "fclose_list tol (integratePos (T:=float) js qp qv dt) o && fclose_list 0x1p-28 (differentiatePos (T:=float) js dt qp o) dv end")
-    fails = ctx.coq_eval("c05_pos", pre, cases, chk, shard=40, pre="Open Scope float_scope.")
-    for i in fails[:3]:
+    _fut = _pool.submit(ctx.coq_eval, "c05_pos", pre, cases, chk, shard=40, pre="Open Scope float_scope.")
+    def _rep(i, cases=cases, kept=(kept if 'kept' in dir() else None)):
         ctx.violation("correspondence", kept[i], expected="Model/Integrate.v integratePos/differentiatePos", observed=cases[i][:300], found_input=False,
                       theorem="correspondence mj_integratePos")
-    ncorr += len(fails)
+    _pending.append((_fut, _rep))
     # ------------------------------------------------------------------ A
     cases = []
     kept = []
@@ -209,11 +232,11 @@ def run(ctx):
             nontriv += 1 if (lim and (res == lo or res == hi)) or dyn == 3 else 0
     chk = ("fun c => match c with (ex, h, a, ad, p0, lim, lo, hi, r) => let m := nextActivation (T:=float) ex h a ad p0 lim lo hi in "
            "if ex then fclose 0x1p-40 m r else fbits_eq m r end")
-    fails = ctx.coq_eval("c05_act", pre, cases, chk, pre="Open Scope float_scope.")
-    for i in fails[:3]:
+    _fut = _pool.submit(ctx.coq_eval, "c05_act", pre, cases, chk, pre="Open Scope float_scope.")
+    def _rep(i, cases=cases, kept=(kept if 'kept' in dir() else None)):
         ctx.violation("correspondence", kept[i], expected="Model/Integrate.v nextActivation", observed=cases[i], found_input=False,
                       theorem="correspondence mj_nextActivation")
-    ncorr += len(fails)
+    _pending.append((_fut, _rep))
     nact = len(cases)
     # ------------------------------------------------------------------ E
     cases = []
@@ -249,10 +272,10 @@ def run(ctx):
     chk = ("fun c => match c with (ts, h, qp, qv, qa, t0, qp1, qv1, t1) => "
            "let s := euler (T:=float) (js_of ts) h {| qpos := qp; qvel := qv; time := t0 |} qa in "
            "fbits_list (qvel s) qv1 && fbits_eq (time s) t1 && fclose_list tol (qpos s) qp1 end")
-    fails = ctx.coq_eval("c05_euler", pre, cases, chk, shard=20, pre="Open Scope float_scope.")
-    for i in fails[:3]:
+    _fut = _pool.submit(ctx.coq_eval, "c05_euler", pre, cases, chk, shard=20, pre="Open Scope float_scope.")
+    def _rep(i, cases=cases, kept=(kept if 'kept' in dir() else None)):
         ctx.violation("correspondence", kept[i], expected="Model/Integrate.v euler", observed=cases[i][:300], found_input=False, theorem="correspondence mj_Euler")
-    ncorr += len(fails)
+    _pending.append((_fut, _rep))
     # ------------------------------------------------------------------ S (oracle only)
     nsteps_checked = 0
     inames = ["Euler", "RK4", "implicit", "implicitfast"]
@@ -302,6 +325,138 @@ def run(ctx):
                 lim = int(at[1 + 4 * k]); lo, hi, act = hx(at[2 + 4 * k: 5 + 4 * k])
                 if lim and not (lo <= act <= hi):
                     ctx.violation("impl_violation", c2, expected="act within actrange [%r,%r]" % (lo, hi), observed=act, signature=sig, theorem="C05_act_clamped")
+    # ------------------------------------------------------------------ I (implicit integrators, oracle only)
+    # documented scheme: (M - h D)(v' - v) = h (qfrc_smooth + qfrc_constraint) with D = d qfrc_smooth / d qvel (implicit) resp. the
+    # passive + actuator part of it (implicitfast; full block for standalone free bodies).  D is MEASURED by central differences
+    # of mj_forward, independently of the engine's analytic derivative; cases where one-sided differences disagree (a force
+    # clamp or another kink within eps) are skipped and counted.
+    nimp = nimp_kink = 0
+    EPS = 1e-6
+    for (mo, r, integ) in ireq:
+        line = lines[pos]; pos += 1
+        case = {"op": "mj_step", "model": ({"c05_custom_seed": mo[0]} if mo[1] == 0xFFFFFFFF else {"seed": mo[0], "feat": mo[1], "nbody": mo[2]}), "rep": r, "integrator": inames[integ],
+                "note": "driver mode I: custom model (multi-input PID actuators, cross-branch tendons, asymmetric ranges) or mjgen model with derivative-relevant parameters re-randomised"}
+        parts = line.split("|")
+        if "ERR" in line or len(parts) != 18:
+            ctx.broken.append(("correspondence", "driver reply unusable (mode I)", line[:200] + " for " + str(case)))
+            continue
+        nv = int(parts[0]); h = hx(parts[1].split())[0]
+        v0 = hx(parts[2].split()); v1 = hx(parts[3].split()); f = hx(parts[4].split()); Md = hx(parts[5].split())
+        fb = list(map(int, parts[6].split()))
+        S0 = hx(parts[7].split()); P0 = hx(parts[8].split())
+        Sp, Sm, Pp, Pm, QD = (hx(parts[k].split()) for k in (9, 10, 11, 12, 13))
+        if int(parts[14].split()[0]) or nv == 0:
+            continue
+        maskA = list(map(int, parts[15].split()))
+        pat = parts[16].split()
+        tsets = [set(map(int, t.split())) for t in parts[17].split(";") if t.strip()]
+
+        def outside_pattern(k, i):      # (k,i) coupled by a velocity-dependent tendon force but absent from qDeriv's sparsity
+            return pat[k][i] == "0" and any(k in ts and i in ts for ts in tsets)
+
+        def classify(k, cols):
+            if any(outside_pattern(k, i) for i in cols):
+                return "derivative-outside-tree-sparsity-dropped"
+            return "other"
+        kinks = []
+
+        def fd(Fp, Fm, F0):
+            D = [0.0] * (nv * nv)
+            for k in range(nv):
+                for i in range(nv):
+                    dc = (Fp[k * nv + i] - Fm[k * nv + i]) / (2 * EPS)
+                    dp = (Fp[k * nv + i] - F0[k]) / EPS
+                    dm = (F0[k] - Fm[k * nv + i]) / EPS
+                    if abs(dp - dm) > 1e-3 * (1 + abs(dc)):
+                        kinks.append((k, i))
+                    D[k * nv + i] = dc
+            return D
+        Dfull = fd(Sp, Sm, S0)
+        Dfast = fd(Pp, Pm, P0)
+        if kinks:
+            nimp_kink += 1
+            continue
+        Dref = Dfull if integ == 2 else Dfast
+        if integ == 2:
+            D = Dfull
+        else:
+            D = [Dfull[k * nv + i] if (fb[k] >= 0 and fb[k] == fb[i]) else Dfast[k * nv + i] for k in range(nv) for i in range(nv)]
+            asym = max([abs(D[k * nv + i] - D[i * nv + k]) for k in range(nv) for i in range(nv) if not (fb[k] >= 0 and fb[k] == fb[i])] or [0.0])
+            if asym > 1e-5 * (1 + max(abs(x) for x in D)):
+                nimp_kink += 1       # implicitfast symmetrises: outside the simple statement
+                continue
+        nimp += 1
+        dscale = 1 + max(abs(x) for x in D)
+        worst = {}
+        for k in range(nv):
+            acc = -h * f[k]
+            sc = abs(h * f[k])
+            for i in range(nv):
+                a = Md[k * nv + i] - h * D[k * nv + i]
+                acc += a * (v1[i] - v0[i])
+                sc += abs(a * (v1[i] - v0[i]))
+            if abs(acc) > 1e-6 * sc + 1e-9 * h * dscale:
+                wrongcols = [i for i in range(nv) if abs(QD[k * nv + i] - D[k * nv + i]) > 1e-5 * dscale] or [k]
+                cls = classify(k, wrongcols)
+                rel = abs(acc) / (sc + 1e-300)
+                if cls not in worst or rel > worst[cls][1]:
+                    worst[cls] = (k, rel, acc)
+        for cls in sorted(worst):
+            k = worst[cls][0]
+            ctx.violation("impl_violation", case, expected="(M - h D)(v' - v) = h (qfrc_smooth + qfrc_constraint) with D measured by finite differences of mj_forward",
+                          observed={"dof": k, "residual": worst[cls][2], "relative": worst[cls][1], "D_row_fd": D[k * nv:(k + 1) * nv], "qDeriv_row_engine": QD[k * nv:(k + 1) * nv],
+                                    "v": v0[k], "v_new": v1[k], "h": h}, signature={"site": "mj_implicit", "class": cls, "integrator": inames[integ]}, theorem="C05_implicit_partial")
+        # the engine's analytic derivative itself against the measured one
+        seen = set()
+        for k in range(nv):
+            bad = [i for i in range(nv) if abs(QD[k * nv + i] - Dref[k * nv + i]) > 1e-5 * dscale]
+            if bad:
+                cls = classify(k, bad)
+                if cls in seen:
+                    continue
+                seen.add(cls)
+                ctx.violation("impl_violation", case, expected="qDeriv = d qfrc / d qvel (finite differences of mj_forward)",
+                              observed={"row": k, "cols": bad[:6], "qDeriv": [QD[k * nv + i] for i in bad[:6]], "fd": [Dref[k * nv + i] for i in bad[:6]]},
+                              signature={"site": "mjd_smooth_vel", "class": cls, "integrator": inames[integ]}, theorem="C05_implicit_partial")
+        nontriv += 1
+    # ------------------------------------------------------------------ V (actuator force and its velocity derivative, scalar tie)
+    cases = []
+    kept = []
+    nsat = 0
+    for (pre_, cl, clo, chi, fl, a) in vreq:
+        line = lines[pos]; pos += 1
+        case = {"op": "mjd_actuator_vel one hinge", "pid_actuator_in_front": pre_, "ctrllimited": cl, "ctrlrange": [clo, chi], "forcelimited": fl,
+                "forcerange": a[0:2], "gainprm": a[2:5], "biasprm": a[5:8], "qpos": a[8], "qvel": a[9], "ctrl": a[10]}
+        if line.startswith("ERR"):
+            ctx.broken.append(("correspondence", "one-hinge actuator model did not compile", line[:200] + str(case)))
+            continue
+        t = line.split()
+        force, qd, length = hx(t[0:3])
+        # independent oracle: closed form of the applied force and of its derivative
+        u = min(max(a[10], clo), chi) if cl else a[10]
+        raw = (a[2] + a[3] * length + a[4] * a[9]) * u + (a[5] + a[6] * length + a[7] * a[9])
+        f_exp = min(max(raw, a[0]), a[1]) if fl else raw
+        sat = fl and not (a[0] < raw < a[1])
+        nsat += sat
+        d_exp = 0.0 if sat else a[4] * u + a[7]
+        if abs(raw - a[0]) > 1e-9 and abs(raw - a[1]) > 1e-9:
+            if not close(force, f_exp, 1e-10):
+                ctx.violation("impl_violation", case, expected={"force": f_exp}, observed={"force": force}, signature={"site": "mj_fwdActuation", "class": "affine force"}, theorem="C05_actuator_vel")
+            if not close(qd, d_exp, 1e-10):
+                ctx.violation("impl_violation", case, expected={"d force / d velocity": d_exp, "force": f_exp, "clamped ctrl": u}, observed={"qDeriv": qd},
+                              signature={"site": "mjd_actuator_vel", "class": "affine force derivative"}, theorem="C05_actuator_vel")
+        cases.append("(%s, %s, %s, %s, (%s), %s, %s, %s)" % ("true" if cl else "false", F.fhex(clo), F.fhex(chi), "true" if fl else "false",
+                                                            ", ".join(F.fhex(x) for x in a), F.fhex(length), F.fhex(force), F.fhex(qd)))
+        kept.append(case)
+        nontriv += 1 if sat else 0
+    chk = ("fun c => match c with (cl, clo, chi, fl, (flo, fhi, g0, g1, g2, b0, b1, b2, q, v, ctrl), len, force, qd) => "
+           "let u := act_input (T:=float) cl clo chi ctrl in let f := act_force (T:=float) fl flo fhi g0 g1 g2 b0 b1 b2 len u v in "
+           "fclose 0x1p-40 f force && fclose 0x1p-40 (act_force_vel (T:=float) fl flo fhi g2 b2 u f) qd end")
+    _fut = _pool.submit(ctx.coq_eval, "c05_actvel", pre, cases, chk, pre="Open Scope float_scope.")
+    def _rep(i, cases=cases, kept=(kept if 'kept' in dir() else None)):
+        ctx.violation("correspondence", kept[i], expected="Model/Integrate.v act_force / act_force_vel", observed=cases[i], found_input=False,
+                      theorem="correspondence mjd_actuator_vel")
+    _pending.append((_fut, _rep))
     # ------------------------------------------------------------------ R (RK4 loop on a one-joint system)
     cases = []
     for a in rreq:
@@ -329,12 +484,18 @@ def run(ctx):
            "let f := fun (t : float) (qp qv ac : list float) => ([ (nopp (nadd (nmul k (nth O qp 0)) (nmul b (nth O qv 0)))) / m ], @nil float) in "
            "match rk4 (T:=float) [JSlide] h (rows3 (map q2T RK4_A)) (map q2T RK4_B) f 0x1p-2 [q] [v] [] with "
            "(qp, qv, _, t) => fclose 0x1p-30 (nth O qp 0) q1 && fclose 0x1p-30 (nth O qv 0) v1 && fbits_eq t t1 end end")
-    fails = ctx.coq_eval("c05_rk", pre, cases, chk, pre="Open Scope float_scope.")
-    for i in fails[:3]:
+    _fut = _pool.submit(ctx.coq_eval, "c05_rk", pre, cases, chk, pre="Open Scope float_scope.")
+    def _rep(i, cases=cases, kept=(kept if 'kept' in dir() else None)):
         ctx.violation("correspondence", {"op": "mj_RungeKutta one slide joint", "k_b_m_h_q_v": rreq[i]}, expected="Model/Integrate.v rk4 with the regenerated tableau",
                       observed=cases[i], found_input=False, theorem="correspondence mj_RungeKutta")
-    ncorr += len(fails)
-    ctx.cov["evaluations"] = len(qreq) + len(preq) + nact + len(ereq) + nsteps_checked + len(rreq)
+    _pending.append((_fut, _rep))
+    for (_fut, _rep) in _pending:
+        fails = _fut.result()
+        for i in fails[:3]:
+            _rep(i)
+        ncorr += len(fails)
+    _pool.shutdown()
+    ctx.cov["evaluations"] = len(qreq) + len(preq) + nact + len(ereq) + nsteps_checked + len(rreq) + nimp + len(vreq)
     ctx.cov["distinct_nontrivial"] = nontriv
     ctx.cov["rule"] = ("mju_quatIntegrate: random unit/unnormalised/zero/nearly-unit quaternions x random/zero/tiny/large velocities x scales; "
                        "mj_integratePos/mj_differentiatePos/mj_Euler/mj_step: %d generated models (free, ball, slide, hinge joints; actuators with activation dynamics) x repetitions; "
@@ -343,5 +504,8 @@ def run(ctx):
     ctx.cov["samples"] = [{"op": "mju_quatIntegrate", "args": qreq[0]}, {"op": "mj_integratePos", "model": preq[0][0]}, {"op": "rk4 one joint", "args": rreq[0]}]
     ctx.cov["correspondence_disagreements"] = ncorr
     ctx.cov["support"]["mj_step_steps_checked_by_oracle"] = nsteps_checked
+    ctx.cov["support"]["implicit_steps_checked_against_finite_difference_derivative"] = nimp
+    ctx.cov["support"]["implicit_steps_skipped_at_a_kink"] = nimp_kink
+    ctx.cov["support"]["one_hinge_actuator_cases_saturated"] = nsat
     ctx.cov["explanation"] = ("11 theorems proved over R for all inputs of the model; tableau regenerated from source and decided in Q; model tied to the working tree by "
                               "%d numeric comparisons; %d mj_step steps checked by the oracle" % (len(qreq) + len(preq) + nact + len(ereq) + len(rreq), nsteps_checked))
